@@ -628,7 +628,17 @@ func runBufExec(execID int, sc *BScenario, mode string, seed int64, strategy str
 		before[g.Gid] = true
 	}
 	opts := sched.Options{Seed: seed, Strategy: strategy, Replay: replay, PCTDepth: 3, IdleProb: 150, MaxSteps: 4000, DFS: bufDFS}
+	ctl.OnHolders = nil
 	if mode == "c" {
+		if lockTrace {
+			ctl.OnHolders = func(held []sched.Arrival) {
+				hs := make([]map[string]any, len(held))
+				for i, h := range held {
+					hs[i] = map[string]any{"g": h.Role, "pt": h.Pt, "obj": h.Obj}
+				}
+				x.r.Add(rec.Ev{"ev": "locks", "held": hs})
+			}
+		}
 		ctl.Begin(opts)
 	} else {
 		ctl.StartFree(seed, 4)
@@ -856,6 +866,10 @@ func cmdBuffer(args map[string]string) {
 	}
 	rng := rand.New(rand.NewSource(seed))
 	strategies := []string{"hold", "random", "hold", "pct"}
+	if args["locks"] == "1" {
+		lockTrace = true
+		strategies = []string{"holdlock", "holdlock", "random", "hold"}
+	}
 	var fixed *BScenario
 	if sf := args["scenario"]; sf != "" {
 		b, err := os.ReadFile(sf)
